@@ -1042,6 +1042,108 @@ def _op_fields(model, c: ClassInfo):
     return out
 
 
+def _ops_rebuildable(ctx, model, ops):
+    """matchpy rebuilds an operation whose operand was replaced as
+    ``type(op)(*new_operands, variable_name=...)`` (matchpy.expressions.
+    functions.create_operation_expression; stated as an assumption).  So every
+    operation class of the bridge must take its operands *unpacked*: a
+    fixed-arity dataclass has one positional field per operand; a variadic one
+    whose state is a single tuple field needs an __init__ with *operands --
+    with the generated dataclass __init__ the first replaced operand lands in
+    the tuple field as it is and the second collides with variable_name.
+    The converters must construct it the way its __init__ reads."""
+    ctx.assume("matchpy rebuilds operations as type(op)(*operands, "
+               "variable_name=...) (create_operation_expression)")
+    opbase = [c for c in ops.values()
+              if any(getattr(k, "name", k) == "Operation" for k in model.mro(c))]
+    n = 0
+    star_classes = set()
+    for c in sorted(opbase, key=lambda k: k.name):
+        ar = c.members.get("arity")
+        variadic = ar is not None and "variadic" in ast.unparse(
+            ar.node.value if ar.kind == "ann" else ar.node)
+        if not variadic:
+            continue
+        flds = [f for f in _op_fields(model, c)]
+        tuple_state = len(flds) == 1 and any(
+            isinstance(st, ast.AnnAssign) and isinstance(st.target, ast.Name)
+            and st.target.id == flds[0]
+            and ast.unparse(st.annotation).startswith("tuple")
+            for k in model.mro(c) if isinstance(k, ClassInfo)
+            for st in k.node.body)
+        if not tuple_state:
+            continue
+        n += 1
+        init = c.members.get("__init__")
+        ok = init is not None and init.kind == "func" and \
+            init.node.args.vararg is not None
+        if ok:
+            star_classes.add(c.name)
+            # the varargs are what is stored in the tuple field
+            va = init.node.args.vararg.arg
+            stores = [e for ps in summarize(init.node, node_param=False)
+                      for e in ps.events
+                      if e.kind == "call" and e.name == "object.__setattr__"
+                      and len(e.args) == 3 and e.args[1] == ("const", flds[0])]
+            ok = bool(stores) and all(
+                e.args[2] in (("varargs",), ("copy", ("varargs",)),
+                              ("call", "tuple", (("varargs",),), ()))
+                for e in stores)
+        ctx.ob(f"S/matchpy/{c.name}/rebuildable-from-unpacked-operands", ok,
+               c.loc(),
+               f"{c.name}(*operands, variable_name=...) stores the operands"
+               if ok else
+               f"the variadic operation {c.name} keeps its operands in one tuple "
+               f"field ({flds[0]}) and has the generated dataclass __init__: "
+               "matchpy's rebuild after a replacement, "
+               f"{c.name}(*new_operands, variable_name=...), puts the first "
+               "operand itself into that field and passes the second as "
+               "variable_name -- replace_all(g(b + f(a)), f(w) -> M) returns "
+               "g(M, b), g(f(a), b) raises TypeError")
+    ctx.floor("variadic tuple-state operation classes", n, 1)
+    # construction sites in the converters agree with the constructor
+    to = model.cls(f"{TF}:ToMatchpyExpressionMapper")
+    bad = []
+    n_sites = 0
+    for mem in to.members.values():
+        if mem.kind != "func":
+            continue
+        for call in ast.walk(mem.node):
+            if isinstance(call, ast.Call) and isinstance(call.func, ast.Attribute) \
+                    and call.func.attr in {c.name for c in opbase} and \
+                    call.func.attr in {k.name for k in opbase
+                                       if k.name in star_classes or True}:
+                cname = call.func.attr
+                if cname not in {c.name for c in opbase if c.name in star_classes
+                                 } | {c.name for c in opbase}:
+                    continue
+                takes_star = cname in star_classes
+                tuple_field_cls = cname in {
+                    c.name for c in opbase
+                    if c.members.get("arity") is not None and "variadic" in
+                    ast.unparse(c.members["arity"].node.value
+                                if c.members["arity"].kind == "ann"
+                                else c.members["arity"].node)
+                    and len(_op_fields(model, c)) == 1}
+                if not tuple_field_cls:
+                    continue
+                n_sites += 1
+                passes_star = any(isinstance(a, ast.Starred) for a in call.args)
+                one_collection = len(call.args) == 1 and not passes_star
+                if takes_star and one_collection:
+                    bad.append((mem, call, "passes one collection to a "
+                                "constructor that takes *operands: the whole "
+                                "collection becomes a single operand"))
+                if not takes_star and passes_star:
+                    bad.append((mem, call, "unpacks the operands into a "
+                                "constructor that takes one tuple"))
+    ctx.floor("converter sites constructing a tuple-state operation", n_sites, 2)
+    ctx.ob("S/matchpy/tuple-op/construction-agrees-with-init", not bad,
+           to.loc(), "the converters pass operands the way the constructor "
+           "reads them" if not bad else
+           f"{bad[0][0].owner.name}.{bad[0][0].node.name}: {bad[0][2]}")
+
+
 def _matchpy(ctx, model):
     to = model.cls(f"{TF}:ToMatchpyExpressionMapper")
     frm = model.cls(f"{TF}:FromMatchpyExpressionMapper")
@@ -1070,6 +1172,7 @@ def _matchpy(ctx, model):
                f"op class {name} names the handler {mmv}, which "
                "FromMatchpyExpressionMapper does not define")
     ctx.floor("matchpy op classes with a handler name", n_ops, 20)
+    _ops_rebuildable(ctx, model, ops)
 
     # inverse tables
     pairs = 0
@@ -1163,10 +1266,92 @@ def _matchpy(ctx, model):
     _replacement(ctx, model)
 
 
+def _binding_forms(frm, V):
+    return {
+        "expression": frm(V),
+        "multiset": ("call", "multiset.Multiset",
+                     (("dict", frm(("key", V)), ("val", V), ("items", V)),), ()),
+        "tuple": ("seq", "tuple", frm(("elem", V)), V, ()),
+    }
+
+
+def _kind_of_test(v, V):
+    if isinstance(v, tuple) and v[0] == "call" and v[1] == "isinstance" and \
+            v[2][0] == V:
+        t = str(v[2][1])
+        return "expression" if "MatchpyExpression" in t else \
+            "multiset" if "Multiset" in t else \
+            "tuple" if "tuple" in t else t
+    return None
+
+
+def _judge_binding(ctx, what, where_, kind, conv, forms, frm, V):
+    ok = conv == forms[kind]
+    if kind == "multiset" and not ok:
+        # iterating a multiset repeats each element by its count, so an
+        # order-insensitive, duplicate-keeping rebuild is the same thing
+        ok = conv[0] == "call" and conv[1] == "multiset.Multiset" and \
+            len(conv[2]) == 1 and conv[2][0][0] == "seq" and \
+            conv[2][0][1] in ("gen", "list", "tuple") and \
+            conv[2][0][2:] == (frm(("elem", V)), V, ())
+    ctx.ob(f"T/matchpy/replacement/{kind}/binding-converted", ok, where_,
+           f"a {kind} binding is converted back element by element, "
+           "structure kept" if ok else
+           f"a {kind} binding reaches the callback as {_short_v(conv)}; "
+           f"expected {_short_v(forms[kind])} (for a multiset: every element "
+           "converted, its count kept)")
+
+
+def _judge_converter_function(ctx, model, m_, cfn, kinds):
+    """a module-level helper  conv(from_matchpy_expr, binding)"""
+    params = [a.arg for a in cfn.args.args]
+    if len(params) != 2:
+        raise AnalysisError(f"{cfn.name}: expected (converter, binding)")
+    F, V = ("param", params[0]), ("param", params[1])
+
+    def frm(x):
+        return ("call", params[0], (x,), (), F)
+
+    def strip(v):
+        return v
+
+    forms = _binding_forms(lambda x: ("call", params[0], (x,), ()), V)
+    refusal = False
+    for ps in summarize(cfn, plain=True, loop_mode="1"):
+        kind = None
+        for _, pol, v in ps.conds:
+            k_ = _kind_of_test(v, V) if pol else None
+            if k_:
+                kind = k_
+        if ps.term == "raise":
+            refusal = refusal or kind is None
+            continue
+        if ps.term != "return":
+            raise AnalysisError(f"{cfn.name}: a path falls off the end")
+        if kind is None or kind not in forms:
+            raise AnalysisError(f"{cfn.name}: binding kind {kind} has no "
+                                "reference conversion")
+        kinds.add(kind)
+
+        def drop_callee(v):
+            if isinstance(v, tuple):
+                if v and v[0] == "call" and len(v) > 4 and v[1] == params[0]:
+                    v = v[:4]
+                return tuple(drop_callee(x) for x in v)
+            return v
+        _judge_binding(ctx, cfn.name, m_.loc(cfn), kind, drop_callee(ps.retval),
+                       forms, lambda x: ("call", params[0], (x,), ()), V)
+    if not refusal:
+        raise AnalysisError(f"{cfn.name}: the case distinction does not end in "
+                            "a refusal")
+
+
 def _replacement(ctx, model):
     """ToFromReplacement.__call__ hands the user's callback the bindings matchpy
     found, converted back structure-preservingly: expression -> expression,
-    multiset -> multiset with the same counts, tuple -> tuple in order."""
+    multiset -> multiset with the same counts, tuple -> tuple in order.
+    match() and match_anywhere() report the same bindings and must convert them
+    the same way (a star wildcard binds a tuple or a multiset there, too)."""
     c = model.cls(f"{TF}:ToFromReplacement")
     mem = c.members.get("__call__")
     if mem is None or mem.kind != "func" or mem.node.args.kwarg is None:
@@ -1174,52 +1359,21 @@ def _replacement(ctx, model):
     fn = mem.node
     KW = ("kwargs",)
     V = ("val", KW)
+    tfm = model.repo.module(TF)
 
     def frm(x):
         return ("call", "self.from_matchpy_expr", (x,), ())
 
-    forms = {
-        "expression": frm(V),
-        "multiset": ("call", "multiset.Multiset",
-                     (("dict", frm(("key", V)), ("val", V), ("items", V)),), ()),
-        "tuple": ("seq", "tuple", frm(("elem", V)), V, ()),
-    }
+    forms = _binding_forms(frm, V)
     kinds = set()
-
-    def kind_of_test(v):
-        if isinstance(v, tuple) and v[0] == "call" and v[1] == "isinstance" and \
-                v[2][0] == V:
-            t = str(v[2][1])
-            return "expression" if "MatchpyExpression" in t else \
-                "multiset" if "Multiset" in t else \
-                "tuple" if "tuple" in t else t
-        return None
-
-    def judge(kind, conv):
-        ok = conv == forms[kind]
-        if kind == "multiset" and not ok:
-            # iterating a multiset repeats each element by its count, so an
-            # order-insensitive, duplicate-keeping rebuild is the same thing
-            ok = conv[0] == "call" and conv[1] == "multiset.Multiset" and \
-                len(conv[2]) == 1 and conv[2][0][0] == "seq" and \
-                conv[2][0][1] in ("gen", "list", "tuple") and \
-                conv[2][0][2:] == (frm(("elem", V)), V, ())
-        ctx.ob(f"T/matchpy/replacement/{kind}/binding-converted", ok, where(mem),
-               f"a {kind} binding is converted back element by element, "
-               "structure kept" if ok else
-               f"a {kind} binding reaches the callback as {_short_v(conv)}; "
-               f"expected {_short_v(forms[kind])} (for a multiset: every element "
-               "converted, its count kept)")
+    converter = None        # name of a shared module-level converter, if any
 
     for ps in summarize(fn, node_param=False, loop_mode="1"):
         kind = None
         for _, pol, v in ps.conds:
-            if pol and isinstance(v, tuple) and v[0] == "call" and \
-                    v[1] == "isinstance" and v[2][0] == V:
-                t = str(v[2][1])
-                kind = "expression" if "MatchpyExpression" in t else \
-                    "multiset" if "Multiset" in t else \
-                    "tuple" if "tuple" in t else t
+            k_ = _kind_of_test(v, V) if pol else None
+            if k_:
+                kind = k_
         if ps.term == "raise":
             continue
         rv = ps.retval
@@ -1233,36 +1387,90 @@ def _replacement(ctx, model):
                 if d[0] == "dict" and d[1] == ("key", KW) and \
                         d[3] == ("items", KW):
                     conv = d[2]
-        if conv is not None and conv[0] != "ifexp":
-            if kind is None or kind not in forms:
-                raise AnalysisError("ToFromReplacement.__call__: binding kind "
-                                    f"{kind} has no reference conversion")
-            kinds.add(kind)
         if conv is None:
             ctx.ob(f"T/matchpy/replacement/{kind}/callback-gets-all-bindings",
                    False, where(mem), "the result is not "
                    "to_matchpy_expr(f(**{name: converted binding}))")
+            continue
+        # a shared helper  conv(self.from_matchpy_expr, binding)
+        if conv[0] == "call" and conv[2] == (("self", "from_matchpy_expr"), V) \
+                and f"{TF}:{conv[1]}" in model.functions:
+            converter = conv[1]
+            _judge_converter_function(
+                ctx, model, tfm, model.functions[f"{TF}:{conv[1]}"][1], kinds)
             continue
         if conv[0] == "ifexp":
             # the case distinction is a conditional expression (helper inlined
             # into a comprehension): judge every arm under its own test
             arm = conv
             while isinstance(arm, tuple) and arm[0] == "ifexp":
-                k_ = kind_of_test(getattr(arm[1], "val", None))
+                k_ = _kind_of_test(getattr(arm[1], "val", None), V)
                 if k_ is None or k_ not in forms:
                     raise AnalysisError("ToFromReplacement.__call__: binding kind "
                                         f"{k_} has no reference conversion")
                 kinds.add(k_)
-                judge(k_, arm[2])
+                _judge_binding(ctx, "call", where(mem), k_, arm[2], forms, frm, V)
                 arm = arm[3]
             if not (isinstance(arm, tuple) and arm[0] == "call"
                     and arm[1] == "__raises__"):
                 raise AnalysisError("ToFromReplacement.__call__: the case "
                                     "distinction does not end in a refusal")
             continue
-        judge(kind, conv)
+        if kind is None or kind not in forms:
+            raise AnalysisError("ToFromReplacement.__call__: binding kind "
+                                f"{kind} has no reference conversion")
+        kinds.add(kind)
+        _judge_binding(ctx, "call", where(mem), kind, conv, forms, frm, V)
     ctx.ob("T/matchpy/replacement/kinds", kinds == set(forms), where(mem),
            f"binding kinds converted: {sorted(kinds)}")
+    _match_converts_like_replacement(ctx, model, converter)
+
+
+def _match_converts_like_replacement(ctx, model, converter):
+    """sibling agreement: match() and match_anywhere() hand out the same kinds
+    of binding the replacement callback gets.  With a shared converter they
+    must send every binding through it; sending a binding straight to
+    from_matchpy_expr cannot convert the tuple / multiset a star wildcard is
+    bound to."""
+    for fname in ("match", "match_anywhere"):
+        key = f"{MP}:{fname}"
+        if key not in model.functions:
+            raise AnalysisError(f"{fname}() not found in the matchpy bridge")
+        m_, fn = model.functions[key]
+        comps = [c_ for c_ in ast.walk(fn) if isinstance(c_, ast.DictComp)
+                 and isinstance(c_.generators[0].iter, ast.Call)
+                 and isinstance(c_.generators[0].iter.func, ast.Attribute)
+                 and c_.generators[0].iter.func.attr == "items"]
+        if len(comps) != 1:
+            raise AnalysisError(f"{fname}(): expected one mapping built from "
+                                "the substitution's items")
+        dc = comps[0]
+        tgt = dc.generators[0].target
+        if not (isinstance(tgt, ast.Tuple) and len(tgt.elts) == 2
+                and isinstance(tgt.elts[1], ast.Name)):
+            raise AnalysisError(f"{fname}(): substitution loop target")
+        vname = tgt.elts[1].id
+        val = dc.value
+        direct = isinstance(val, ast.Call) and isinstance(val.func, ast.Name) \
+            and val.func.id == "from_matchpy_expr" and len(val.args) == 1 \
+            and isinstance(val.args[0], ast.Name) and val.args[0].id == vname
+        via = converter is not None and isinstance(val, ast.Call) and \
+            isinstance(val.func, ast.Name) and val.func.id == converter and \
+            len(val.args) == 2 and isinstance(val.args[1], ast.Name) and \
+            val.args[1].id == vname and isinstance(val.args[0], ast.Name) and \
+            val.args[0].id == "from_matchpy_expr"
+        if not direct and not via:
+            raise AnalysisError(f"{fname}(): conversion of a binding not "
+                                f"understood: {ast.unparse(val)}")
+        ctx.ob(f"S/matchpy/{fname}/bindings-converted-like-replacement", via,
+               m_.loc(dc),
+               "every binding goes through the converter the replacement "
+               "callback's bindings go through" if via else
+               f"{fname}() sends every binding straight to from_matchpy_expr, "
+               "while the replacement callback's bindings are converted by kind "
+               "(expression / tuple / multiset): a star wildcard binds a tuple "
+               f"or a multiset, so {fname}(a + b + c, w + s*) raises TypeError "
+               "(unhashable Multiset) instead of reporting its matches")
 
 
 def _prop_fields(a):
